@@ -244,9 +244,16 @@ def run_bin(path, args, stdin_data=None, timeout=1800, env=None, cwd=None):
     e.setdefault("RUST_BACKTRACE", "0")
     if env:
         e.update({k: str(v) for k, v in env.items()})
+    # a harness (with the code under test inside it) that runs away must fail by itself - an allocation error, i.e.
+    # SIGABRT - instead of making the kernel's OOM killer shoot other checks' processes (seen: 61 GB in one harness)
+    gb = int(os.environ.get("VERIF_HARNESS_AS_GB", "32"))
+
+    def _limit():
+        import resource
+        resource.setrlimit(resource.RLIMIT_AS, (gb << 30, gb << 30))
     try:
         p = subprocess.run([path] + list(args), input=stdin_data, stdout=subprocess.PIPE, stderr=subprocess.PIPE,
-                           text=True, timeout=timeout, env=e, cwd=cwd, errors="replace")
+                           text=True, timeout=timeout, env=e, cwd=cwd, errors="replace", preexec_fn=_limit)
     except subprocess.TimeoutExpired:
         raise ToolError("harness %s %s timed out after %ss" % (path, args, timeout))
     return p
